@@ -106,6 +106,10 @@ class salted_hash:
         salt = self.salt
 
         def sim_hash(o):
+            # only explicit hash() calls made BY THE LIBRARY UNDER TEST are salted; everybody else's (enum members used as dict
+            # keys, pathlib, the harness ...) must stay consistent with tables that were built at import time
+            if not sys._getframe(1).f_globals.get("__name__", "").startswith("kappadata"):
+                return _REAL_HASH(o)
             if isinstance(o, (int, float, bool)) or o is None:
                 return _REAL_HASH(o)  # numeric hashes are not randomised
             st = _stable(o)
@@ -296,6 +300,10 @@ class SimProcess:
         _SCHED["current"] = self.sched
         _PID["current"] = self.pid
         _os.getpid = _sim_getpid
+        # every process is its own interpreter launch as far as str/bytes hashing is concerned (spawn semantics, like the
+        # pickle boundary); C-level hashing of dict/set keys is not affected by replacing the builtin
+        self._hash_ctx = salted_hash(f"proc/{self.name}/{self.pid}")
+        self._hash_ctx.__enter__()
         try:
             yield self
         finally:
@@ -304,6 +312,7 @@ class SimProcess:
             tw._worker_info = outer_wi
             _ENTROPY["current"] = outer_entropy
             _SCHED["current"], _PID["current"], _os.getpid = outer_sched, outer_pid, outer_getpid
+            self._hash_ctx.__exit__()
             self._depth = 0
 
     def clobber(self, which, seed):
